@@ -509,22 +509,22 @@ def injectUser (s : State) (t : Txn) : R (Bool × State) := do
   let (known, _, s') ← injectWith s t s.cfg.user
   .ok (known, s')
 
+def insPool (e : PoolEntry) : List PoolEntry → List PoolEntry
+  | [] => [e]
+  | y :: ys => if e.txn.hash < y.txn.hash then e :: y :: ys else y :: insPool e ys
+
 /-- pool iteration order = bolt key order = ascending transaction hash -/
-def poolSorted (s : State) : List PoolEntry :=
-  (s.pool.foldr (fun e acc =>
-    let rec ins (e : PoolEntry) : List PoolEntry → List PoolEntry
-      | [] => [e]
-      | y :: ys => if e.txn.hash < y.txn.hash then e :: y :: ys else y :: ins e ys
-    ins e acc) [])
+def poolSorted (s : State) : List PoolEntry := s.pool.foldr insPool []
+
+def refreshStep (s : State) (acc : List Id × List PoolEntry) (e : PoolEntry) : List Id × List PoolEntry :=
+  match verifySingleSoftHard s e.txn s.cfg.unconfirmed with
+  | .ok () => ((if e.valid then acc.1 else acc.1 ++ [e.txn.hash]), acc.2 ++ [{ e with valid := true }])
+  | .error _ => (acc.1, acc.2 ++ [{ e with valid := false }])
 
 /-- Refresh: returns hashes that became valid -/
 def refresh (s : State) : List Id × State :=
-  let step (acc : List Id × List PoolEntry) (e : PoolEntry) : List Id × List PoolEntry :=
-    match verifySingleSoftHard s e.txn s.cfg.unconfirmed with
-    | .ok () => ((if e.valid then acc.1 else acc.1 ++ [e.txn.hash]), acc.2 ++ [{ e with valid := true }])
-    | .error _ => (acc.1, acc.2 ++ [{ e with valid := false }])
-  let (nowValid, pool) := (poolSorted s).foldl step ([], [])
-  (nowValid, { s with pool := pool })
+  let r := (poolSorted s).foldl (refreshStep s) ([], [])
+  (r.1, { s with pool := r.2 })
 
 /-- RemoveInvalid: drops entries violating hard constraints; returns their hashes -/
 def removeInvalid (s : State) : List Id × State :=
